@@ -78,6 +78,45 @@ def effects(prog, fn):
     return [[list(a), [list(e) for e in ef]] for a, ef in sorted(rows)]
 
 
+def plus(v):
+    """`Add(0,X)` / `Add(X,Y)` of a state cell in infix form (the polynomial printer's spelling)"""
+    m = re.match(r"^Add\(0,(.*)\)$", v)
+    if m:
+        return m.group(1)
+    m = re.match(r"^Add\((var<[^,]*>),(.*)\)$", v)
+    if m:
+        return "%s + %s" % (m.group(1), m.group(2))
+    return v
+
+
+def merge_rows(rows):
+    """rows with the same value whose guard sets differ in exactly one complementary pair (`X is Some` / `X is None`)
+    are one row without that guard (a branch that does not influence the value)"""
+    rows = [[sorted(a), v] for a, v in rows]
+    changed = True
+    while changed:
+        changed = False
+        for i in range(len(rows)):
+            for j in range(i + 1, len(rows)):
+                (a, v), (b_, w) = rows[i], rows[j]
+                if v != w or len(a) != len(b_):
+                    continue
+                da, db = [x for x in a if x not in b_], [x for x in b_ if x not in a]
+                if len(da) == 1 and len(db) == 1:
+                    x, y = da[0], db[0]
+                    for p_, q_ in ((" is Some", " is None"), (" is None", " is Some"), (" is Ok", " is Err"), (" is Err", " is Ok")):
+                        if x.endswith(p_) and y.endswith(q_) and x[:-len(p_)] == y[:-len(q_)]:
+                            rows[i] = [sorted(set(a) - {x}), v]
+                            del rows[j]
+                            changed = True
+                            break
+                if changed:
+                    break
+            if changed:
+                break
+    return sorted(rows)
+
+
 def closure_arg(an, t, idx):
     a = strip(an.terms.operand(t["args"][idx]))
     if a[0] == "aggr" and a[1].startswith("closure:"):
@@ -109,20 +148,51 @@ def collect(prog):
                         rec.setdefault("closures", {})[role] = [[a, v] for a, v in accept.ret_table(prog, c[1][8:])]
                 cur = unmut(cur[2][0])
         scans = [(bb, t) for bb, t in b.calls() if short(cname(t)) == "Iterator::scan"]
-        rec["scan_count"] = len(scans)
+        # the same stateful pass written as `let mut st = init; it.map(|x| { ..st.. })`: a map whose closure captures
+        # locals by unique borrow.  State = the captured locals (in capture order), initial state = their initial values.
+        stateful = []
+        if not scans:
+            for bb, t in b.calls():
+                if short(cname(t)) == "Iterator::map" and len(t["args"]) == 2:
+                    c = strip(an.terms.operand(t["args"][1]))
+                    if c[0] == "aggr" and c[1].startswith("closure:") and c[2]:
+                        caps = []
+                        for cap in c[2]:
+                            x = cap
+                            while x[0] in ("ref", "deref"):
+                                x = x[1]
+                            caps.append(x if (cap[0] == "ref" and x[0] == "mut") else None)
+                        if all(x is not None for x in caps):
+                            stateful.append((bb, t, c[1][len("closure:"):], caps))
+        rec["scan_count"] = len(scans) + len(stateful)
         for bb, t in scans:
             pl, src = pipeline(an, an.terms.operand(t["args"][0]))
             rec["scan_input"] = {"adapters": pl, "source": src}
             rec["scan_init"] = sy.name(an.terms.operand(t["args"][1]))
             cp = closure_arg(an, t, 2)
             if cp:
-                rec["scan_table"] = [[a, trim(v)] for a, v in accept.ret_table(prog, cp)]
-                rec["scan_effects"] = effects(prog, cp)
+                rec["scan_table"] = merge_rows([[a, trim(v)] for a, v in accept.ret_table(prog, cp)])
+                rec["scan_effects"] = [[a, [[pl_, plus(v_)] for pl_, v_ in ef]] for a, ef in effects(prog, cp)]
+        for bb, t, cp, caps in stateful:
+            pl, src = pipeline(an, an.terms.operand(t["args"][0]))
+            rec["scan_input"] = {"adapters": pl, "source": src}
+            rec["scan_init"] = "tuple{%s}" % ",".join(sy.name(x[2]) for x in caps)
+            # vocabulary of the scan form: element = arg3, state cell k = `var<&mut T_k>`, result wrapped in Some
+            ren = [("arg1.%d" % k, "var<&mut %s>" % sy.short_ty(b.locals[x[1]]["ty"])) for k, x in enumerate(caps)]
+
+            def rn(s_, ren=ren):
+                s_ = re.sub(r"\barg2\b", "arg3", s_)
+                for a_, b_ in ren:
+                    s_ = re.sub(r"\b%s\b(?!\.)" % re.escape(a_), b_, s_)
+                    s_ = s_.replace("(%s as " % a_, "(%s as " % b_)
+                return s_
+            rec["scan_table"] = merge_rows([[sorted(rn(x) for x in a), "Some{%s}" % trim(rn(v))[:1194]] for a, v in accept.ret_table(prog, cp)])
+            rec["scan_effects"] = sorted([sorted(rn(x) for x in a), [[rn(pl_), plus(rn(v_))] for pl_, v_ in ef]] for a, ef in effects(prog, cp))
         # the rows written are the scan's output, unfiltered
         ser = [(bb, t) for bb, t in b.calls() if short(cname(t)) == "Writer::<W>::serialize"]
         rec["serialize_calls"] = len(ser)
-        if ser and scans:
-            rec["serialize_in_loop_over_scan"] = serialize_source(b, an, ser[0], scans[0][0])
+        if ser and (scans or stateful):
+            rec["serialize_in_loop_over_scan"] = serialize_source(b, an, ser[0], (scans or stateful)[0][0])
         # file loop iterates the sorted list
         sorts = [(bb, t) for bb, t in b.calls() if cname(t) == SORT]
         rec["sort_calls"] = len(sorts)
